@@ -70,3 +70,7 @@ package packet
 //@   props C15
 //@   observe Take, WritePacketData
 //@   entry row charged: [call Take(rw.limiter) ; call WritePacketData(rw.ReadWriter, pkt) as (e)] when ret == e -> exit
+
+//@ func NewRateLimitReadWriter
+//@   props C15
+//@   ensures isptr(ret, rateLimitReadWriter) && asptr(ret, rateLimitReadWriter).ReadWriter == delegate && asptr(ret, rateLimitReadWriter).limiter == limiter
